@@ -147,7 +147,28 @@ let handle (case : string) (out : string) : unit =
              | Panic _ -> List.rev ("PANIC" :: acc)
              | OutOfFuel -> List.rev ("OUTOFFUEL" :: acc)) in
       let model = (match run [] chunks [] with [] -> "-" | l -> String.concat " ; " l) in
-      if model <> canon out then report_diverge "C16" case out model;
+      if model <> canon out then begin
+        report_diverge "C16" case out model;
+        (* first differing poll: all polls before it agree, so both sides looked at the same buffer.
+           For that buffer C16_is_last ties the model's flag to "no byte is buffered behind the
+           telegram": same telegram delivered with a different flag = the is_last clause is violated. *)
+        let ip = split_on_string " ; " (canon out) and mp = split_on_string " ; " model in
+        let rec first a b = match a, b with
+          | x :: a', y :: b' -> if x = y then first a' b' else Some (x, y)
+          | _, _ -> None in
+        (match first ip mp with
+         | Some (x, y) ->
+             let ex = split_on_string " | " x and ey = split_on_string " | " y in
+             let flag_of e = (match split_on_string " ! " e with [t; f] -> Some (t, f) | _ -> None) in
+             let rec cmp a b = match a, b with
+               | e1 :: a', e2 :: b' ->
+                   (match flag_of e1, flag_of e2 with
+                    | Some (t1, f1), Some (t2, f2) when t1 = t2 && f1 <> f2 -> true
+                    | _ -> if e1 = e2 then cmp a' b' else false)
+               | _, _ -> false in
+             if cmp ex ey then report_fail "C16" "is_last" case out
+         | None -> ())
+      end;
       (* statistics *)
       let ngarb = List.length (List.filter (fun (k, _) -> match k with `Garbage _ -> true | _ -> false) parsed) in
       count (Printf.sprintf "buf:%s:%s" mode (if ngarb = 0 then "clean" else "garbage"));
